@@ -292,6 +292,23 @@ pub fn op_import(args: &[Sexp]) -> String {
     }
 }
 
+/// `rawproto.seq <message A> <message B>`: A is imported into a fresh layer set and exported; then B is imported into
+/// the SAME layer set; then A's library is exported again. Importing another library must not change (or break) the
+/// conversion of the first.
+pub fn op_seq(args: &[Sexp]) -> String {
+    let (pa, pb) = match (args.get(0).and_then(p_plib), args.get(1).and_then(p_plib)) { (Some(a), Some(b)) => (a, b), _ => return "bad-op".into() };
+    let la = match raw::Library::from_proto(pa, None) { Ok(l) => l, Err(_) => return "na first-import".into() };
+    let m1 = match la.to_proto() { Ok(m) => m, Err(_) => { break_cycles(&la); return "na first-export".into(); } };
+    let lb = raw::Library::from_proto(pb, Some(la.layers.clone()));
+    let m2 = la.to_proto();
+    if let Ok(b) = &lb { break_cycles(b); }
+    break_cycles(&la);
+    match m2 {
+        Err(_) => "err-second-export".into(),
+        Ok(m2) => if norm_plib(&m1) == norm_plib(&m2) { "ok same".into() } else { "ok differs".into() },
+    }
+}
+
 // ------------------------------------------------------------ oracle
 fn norm_elem(e: &Sexp) -> String {
     // (e net ln pn shape) with rectangles normalised to (min,min,max,max)
@@ -331,7 +348,7 @@ fn norm_rlib(s: &Sexp) -> Vec<String> {
     out
 }
 pub fn oracle(line: &str) -> String {
-    let p = match Sexp::parse_all(line) { Some(p) if p.len() == 2 => p, _ => return "na".into() };
+    let p = match Sexp::parse_all(line) { Some(p) if p.len() == 2 || p.len() == 3 => p, _ => return "na".into() };
     match p[0].atom().unwrap_or("") {
         "rawproto.export" => {
             let lib = match p_rlib(&p[1]) { Some(x) => x, None => return "na".into() };
@@ -388,6 +405,10 @@ pub fn oracle(line: &str) -> String {
                 }
                 Ok(Err(_)) => "pass".into(),
             }
+        }
+        "rawproto.seq" => {
+            let res = crate::ops::run_line(line);
+            if res == "ok same" || res.starts_with("na") { "pass".into() } else { format!("fail after another library was imported into the same layer set, the first library no longer converts as before ({})", res) }
         }
         _ => "na".into(),
     }
@@ -504,6 +525,7 @@ pub const PINNED_PURPOSE_CONFLICTS: &[&str] = &[
 pub fn gen(thorough: bool, rng: &mut Rng, out: &mut Vec<String>) {
     for l in PINNED_PURPOSE_CONFLICTS { out.push(l.to_string()); }
     let n = if thorough { 40000 } else { 4000 };
+    let mut prev_msg: Option<proto::Library> = None;
     for i in 0..n {
         let r = gen_rlib(rng, i % 11 == 3);
         out.push(format!("rawproto.export {}", r));
@@ -512,6 +534,14 @@ pub fn gen(thorough: bool, rng: &mut Rng, out: &mut Vec<String>) {
             if let Some(lib) = Sexp::parse_all(&r).and_then(|v| p_rlib(&v[0])) {
                 if let Ok(pl) = lib.to_proto() {
                     out.push(format!("rawproto.import {}", plib_s(&pl)));
+                    // a sequence on one layer set: this message, with some of its layout shapes moved to the numbers abstracts
+                    // use for pins and blockages, is imported first; the previous message (abstracts included) second
+                    if i % 6 == 0 {
+                        let mut pa = pl.clone();
+                        for c in pa.cells.iter_mut() { if let Some(ly) = c.layout.as_mut() { for g in ly.shapes.iter_mut() { if let Some(l) = g.layer.as_mut() { if rng.coin() { l.purpose = [100, 101, 16][rng.below(3) as usize]; } } } } }
+                        if let Some(prev) = &prev_msg { out.push(format!("rawproto.seq {} {}", plib_s(&pa), plib_s(prev))); }
+                    }
+                    prev_msg = Some(pl.clone());
                     let mut variants: Vec<proto::Library> = vec![];
                     let mut variants2: Vec<proto::Library> = vec![];
                     let mut p2 = pl.clone(); p2.cells.reverse(); variants.push(p2);
